@@ -30,7 +30,7 @@ theorem C18_delivery_fact : Facts.actorUpdate =
 /-- `botRunner.UpdateTableState` as the source has it now: eliminated / not seated-in bots do not play, a state of the
 same hand that is not newer than the last one seen is ignored *and every newer state is remembered*, nothing happens
 unless the table is playing and the bot is dealt in — what `botReacts` transcribes -/
-def expectedBotUpdate : List String := ["gs := table.State.GameState", "br.tableInfo = table", "isEliminated := true", "shouldAutoJoin := false", "for _, ps := range table.State.PlayerStates { if ps.PlayerID == br.playerID { isEliminated = false if !ps.IsIn { shouldAutoJoin = true } break } }", "if isEliminated { return nil }", "if shouldAutoJoin { return br.timebank.NewTask(time.Duration(100)*time.Millisecond, func(isCancelled bool) { if isCancelled { return } br.onTableAutoJoinActionRequested(table.Meta.CompetitionID, table.ID, br.playerID) }) }", "if gs != nil { if gs.GameID != br.curGameID { br.curGameID = gs.GameID } else if br.lastGameStateTime >= gs.UpdatedAt { return nil } br.lastGameStateTime = gs.UpdatedAt }", "if table.State.Status != pokertable.TableStateStatus_TableGamePlaying { return nil }", "gamePlayerIdx := table.GamePlayerIndex(br.playerID)", "if gamePlayerIdx == -1 { return nil }", "player := gs.GetPlayer(gamePlayerIdx)", "if player == nil { return nil }", "if len(player.AllowedActions) > 0 { err := br.requestMove(table.State.GameState, gamePlayerIdx) if err != nil { return err } }", "return nil"]
+def expectedBotUpdate : List String := ["gs := table.State.GameState", "br.tableInfo = table", "isEliminated := true", "shouldAutoJoin := false", "for _, ps := range table.State.PlayerStates { if ps.PlayerID == br.playerID { isEliminated = false if !ps.IsIn { shouldAutoJoin = true } break } }", "if isEliminated { return nil }", "if shouldAutoJoin { return br.timebank.NewTask(time.Duration(100)*time.Millisecond, func(isCancelled bool) { if isCancelled { return } br.onTableAutoJoinActionRequested(table.Meta.CompetitionID, table.ID, br.playerID) }) }", "if gs != nil { if gs.GameID != br.curGameID { br.curGameID = gs.GameID } else if br.lastGameStateTime >= gs.UpdatedAt { return nil } br.lastGameStateTime = gs.UpdatedAt }", "if table.State.Status != pokertable.TableStateStatus_TableGamePlaying || gs == nil { return nil }", "gamePlayerIdx := table.GamePlayerIndex(br.playerID)", "if gamePlayerIdx == -1 { return nil }", "player := gs.GetPlayer(gamePlayerIdx)", "if player == nil { return nil }", "if len(player.AllowedActions) > 0 { err := br.requestMove(table.State.GameState, gamePlayerIdx) if err != nil { return err } }", "return nil"]
 
 theorem C18_update_facts : Facts.botUpdate = expectedBotUpdate := by rfl
 
